@@ -90,7 +90,7 @@ func c10Count(evs []c10Ev, h, kind, name string) int {
 // one handler designated to A and one to B. Every schedule within the bound, append capacity nondeterministic.
 func c10Parallel(ng int, stream bool, nested bool) {
 	ctx := context.Background()
-	vcfg("preempt", 2)
+	vcfg("preempt", 2+vtier())
 	vcfgAppendCapIn("initGraphCallbacks")
 	vcfgAppendCapIn("initNodeCallbacks")
 	vcfgAppendCapIn("AppendHandlers")
